@@ -140,6 +140,9 @@ class generic_implicit_efficient(efficient_sweeper, generic_implicit):
         res = lvl.u[0] - lvl.u[-1]
         for m in range(1, self.coll.num_nodes + 1):
             res += lvl.dt * self.coll.Qmat[-1, m] * lvl.f[m]
+        # add tau if associated
+        if lvl.tau[-1] is not None:
+            res += lvl.tau[-1]
 
         if lvl.params.residual_type[-3:] == 'abs':
             lvl.status.residual = abs(res)
@@ -245,6 +248,9 @@ class imex_1st_order_efficient(efficient_sweeper, imex_1st_order):
         res = lvl.u[0] - lvl.u[-1]
         for m in range(1, self.coll.num_nodes + 1):
             res += lvl.dt * self.coll.Qmat[-1, m] * (lvl.f[m].impl + lvl.f[m].expl)
+        # add tau if associated
+        if lvl.tau[-1] is not None:
+            res += lvl.tau[-1]
 
         if lvl.params.residual_type[-3:] == 'abs':
             lvl.status.residual = abs(res)
